@@ -2,7 +2,7 @@
 returning an AuthenticationError with a closed-set reason ("the client turns any 401 body into an authentication error").
 Run: /venv/bin/python /verif/repro/C21_parse_unauthorized_recursion.py"""
 import sys
-sys.path.insert(0, "/repo")
+import os; sys.path.insert(0, os.environ.get("VGI_REPO", "/repo"))
 from vgi_rpc.http._client import _parse_unauthorized
 from vgi_rpc.http._unauthorized import AuthenticationError
 bad = False
